@@ -265,3 +265,26 @@ PROPS["C11"] = dict(
              "length:0", "length:block-edge(15-17,31-33,63-67,127-130)"],
     assumptions=["an out-of-bounds read is observable only when it reaches the ASan red zone (exact heap block) or the PROT_NONE page"],
 )
+
+# ------------------------------------------------------------------------------------------------ C06
+PROPS["C06"] = dict(
+    title="Serialize output is valid JSON that parses back to an equal document",
+    rule=("documents built by parsing generated texts and through the mutation API (arbitrary string bytes incl. NUL/0xff, const/copied "
+          "strings and keys, 64-bit integer edges, finite doubles incl. extremes and -0.0, duplicate keys, empty containers as last "
+          "child, scalar roots) on pool and malloc allocators; buffer states fresh / WriteBuffer(cap in 0,1,7,8,9,63,64,255,256,257,"
+          "4096) / reused after a larger or smaller document / moved-from; fill-level sweep: [[prefix, e x n], tail] for 9 element "
+          "kinds x 7 shifts x 6 tails x n=0..460 (thorough 3000) so the cursor crosses every capacity boundary at every residue; "
+          "6x-expanding strings after a prefix; non-finite doubles at root/array/object/nested. Oracle: Serialize==none, output accepted "
+          "by the reference recogniser and equal to the model (kinds), library re-parse equals model and operator== original, "
+          "re-serialisation byte-identical, Dump()==output, Size()==strlen(ToString()); ASan on the realloc'ed buffer block; "
+          "non-finite => kSerErrorInfinity and Dump()==\"\"; distinct = hash of the model/text"),
+    runs=[
+        dict(name="asan-hsw", src="serialize_harness.cpp", cfg="asan-hsw", env=ASAN_ENV),
+        dict(name="asan-wsm", src="serialize_harness.cpp", cfg="asan-wsm", env=ASAN_ENV),
+        dict(name="prod-dyn", src="serialize_harness.cpp", cfg="prod-dyn", env={}),
+    ],
+    require=["built:by-parsing", "built:through-mutation-api", "shape:duplicate-keys", "shape:scalar-root", "shape:empty-container-last-child",
+             "non-finite-documents", "buffer:fresh", "buffer:explicit-small-capacity", "buffer:reused", "buffer:moved-from",
+             "fill-level-sweep-documents", "fill-level:final-size-within-8-bytes-of-a-power-of-two"],
+    assumptions=["reference recogniser/parser; ASan sees writes past the (8-byte aligned) realloc block only"],
+)
